@@ -74,6 +74,7 @@ func c17Concurrent(run *rt.Run) {
 		}
 		run.Progress("C17 concurrent %d groups=%d calls=%v", i, len(ids), kinds)
 		errs := make([]error, ncall)
+		rets := make([]int64, ncall)
 		bar := rt.NewBarrier(ncall)
 		var wg sync.WaitGroup
 		var extra sync.Map
@@ -85,8 +86,10 @@ func c17Concurrent(run *rt.Run) {
 				switch kinds[k] {
 				case "flushall":
 					errs[k] = f.FlushAll(ctx)
+					rets[k] = rt.Tick()
 				case "close":
 					errs[k] = f.Close(ctx)
+					rets[k] = rt.Tick()
 				default:
 					tok := fmt.Sprintf("c%d-x-%d", i, k)
 					extra.Store(tok, true)
@@ -110,13 +113,32 @@ func c17Concurrent(run *rt.Run) {
 		sends := append([]sendCall(nil), e.sends...)
 		e.mu.Unlock()
 		emitted := map[string]int{}
+		sentAt := map[string]int64{}
 		var all []string
 		for _, s := range sends {
-			emitted[strings.Join(s.Toks, ",")]++
-			all = append(all, "["+strings.Join(s.Toks, ",")+"]")
+			key := strings.Join(s.Toks, ",")
+			emitted[key]++
+			if _, seen := sentAt[key]; !seen {
+				sentAt[key] = s.Seq
+			}
+			all = append(all, "["+key+"]")
 		}
 		sort.Strings(all)
 		wit := map[string]any{"calls": kinds, "gated_before": groups, "sender_received": all, "sender_yields": ys.yields, "sender_sleep": ys.sleep.String()}
+		// a FlushAll / Close that has returned successfully has left nothing gated: every group that was gated before
+		// the calls began has reached the Sender by then (through this call or the one it waited for)
+		for k, kind := range kinds {
+			if kind != "flushall" && kind != "close" {
+				continue
+			}
+			for _, id := range ids {
+				key := strings.Join(groups[id], ",")
+				if at, ok := sentAt[key]; ok && at > rets[k] {
+					run.Violation("history-pattern:concurrent-flush-returned-early", fmt.Sprintf("%s returned nil at tick %d, but group %s [%s], gated before it was called, reached the Sender only at tick %d", kind, rets[k], id, key, at), wit)
+					break
+				}
+			}
+		}
 		for _, id := range ids {
 			key := strings.Join(groups[id], ",")
 			switch c := emitted[key]; {
